@@ -2,6 +2,8 @@
 import itertools
 from fractions import Fraction
 
+import math
+
 import numpy as np
 
 import sempler.utils as U
@@ -165,27 +167,34 @@ def check_seed_changes():
 
 
 def check_seed_range(nseeds=1000):
-    """every random_state in [0, nseeds) with the real generator, 3 and 4 rows: every one of the n! orders occurs
-    (probability of a miss under a uniform shuffle < 1e-17), each call a valid partition."""
+    """every random_state in [0, nseeds) with the real generator, 3, 4 and 5 rows: every possible assignment of the observations to the
+    folds (as sets: the property says which observations land in which fold, not in which order a fold lists them) occurs
+    (probability of a miss under a uniform shuffle < 1e-12), each call a valid partition."""
     fails = []
-    for n in (3, 4):
+    for n in (3, 4, 5):
         data = make_data([n])
-        orders = set()
+        parts = set()
+        sizes_seen = None
         for s in range(nseeds):
             try:
                 r = U.split_data([data[0].copy()], [0.5, 0.25, 0.25], random_state=s)
-                got = tuple(int(row[0]) for f in r for row in rows_of(f[0]))
+                folds = [tuple(sorted(int(row[0]) for row in rows_of(f[0]))) for f in r]
             except Exception as e:
                 import traceback
                 if all("/mc/" in fr.filename for fr in traceback.extract_tb(e.__traceback__)[-1:]):
                     raise                   # raised inside the checker itself: a harness error, not a verdict
                 return [("raises", "split_data(%d rows, random_state=%d) raised %r" % (n, s, e))]
+            got = [x for f in folds for x in f]
             if sorted(got) != list(range(n)):
                 return [("rows-lost", "split_data(%d rows, [0.5,0.25,0.25], random_state=%d) returned rows %s" % (n, s, got))]
-            orders.add(got)
-        total = 6 if n == 3 else 24
-        if len(orders) != total:
-            fails.append(("shuffle-not-uniform", "split_data of %d rows: over random_state 0..%d only %d of the %d! assignments occur" % (n, nseeds - 1, len(orders), n)))
+            parts.add(tuple(folds))
+            sizes_seen = [len(f) for f in folds]
+        total = math.factorial(n)
+        for k in sizes_seen:
+            total //= math.factorial(k)
+        if len(parts) != total:
+            fails.append(("shuffle-not-uniform", "split_data of %d rows into folds of sizes %s: over random_state 0..%d only %d of the %d possible assignments of rows to folds occur" % (
+                n, sizes_seen, nseeds - 1, len(parts), total)))
     return fails
 
 
@@ -232,6 +241,7 @@ def explore_shuffle(sizes, acc, tier):
     seen = set()
     kinds = set()
     unmodelled = [0]
+    unrecognised = [0]
     total = 1
     for n in sizes:
         for t in range(2, n + 1):
@@ -257,19 +267,29 @@ def explore_shuffle(sizes, acc, tier):
         for sig, msg in f:
             fails.append(("shuffle-exec", {"sizes": sizes, "answers": list(prefix)}, sig, msg))
         if not f:
-            # the folds, concatenated in fold order, are the rows in the order the shuffle answered
+            # which rows land in which fold (as sets). The cross-execution rule below presupposes that the shuffle is one permutation cell
+            # block per environment, used either as a gather (sample[perm]) or as a scatter (out[perm] = sample); anything else (shuffled
+            # fold labels, random keys, ...) is judged per execution only and by the seed-range stage
             perm_cells = [c["value"] for c in tp.trace if c["kind"] == "permutation"]
             pos = 0
             key = []
             for e, n in enumerate(sizes):
                 perm = perm_cells[pos:pos + n]
                 pos += n
-                got = [r for i in range(len(ratios)) for r in rows_of(res[1][i][e])]
-                want = [tuple(before[e][j].tolist()) for j in perm] if len(perm) == n else None
-                key.append(tuple(got))
-                if want is not None and got != want:
-                    fails.append(("shuffle-exec", {"sizes": sizes, "answers": list(prefix)}, "not-the-shuffled-order",
-                                  "%s: environment %d: folds hold rows %s, the shuffle answered order %s" % (d, e, [int(r[0]) for r in got], [int(r[0]) for r in want])))
+                folds = [tuple(sorted(int(r[0]) for r in rows_of(res[1][i][e]))) for i in range(len(ratios))]
+                key.append(tuple(folds))
+                if len(perm) == n and sorted(perm) == list(range(n)):
+                    ids = [int(before[e][j][0]) for j in range(n)]
+                    inv = [0] * n
+                    for a_, b_ in enumerate(perm):
+                        inv[b_] = a_
+                    cuts = np.cumsum([0] + [len(f) for f in folds])
+                    gather = [tuple(sorted(ids[j] for j in perm[cuts[i]:cuts[i + 1]])) for i in range(len(folds))]
+                    scatter = [tuple(sorted(ids[j] for j in inv[cuts[i]:cuts[i + 1]])) for i in range(len(folds))]
+                    if folds != gather and folds != scatter:
+                        unrecognised[0] += 1
+                else:
+                    unrecognised[0] += 1
             seen.add(tuple(key))
             acc.outcome([sizes, key])
         return tp.points
@@ -284,8 +304,19 @@ def explore_shuffle(sizes, acc, tier):
     # "distinct answers => distinct assignments" presupposes that the shuffle is drawn through permutation cells (rng.shuffle /
     # rng.permutation); other legitimate ways to shuffle (random keys + argsort, Fisher-Yates by integers) are judged per
     # execution only, their uniformity by the seed-range stage
-    if mode == "complete" and not fails and not unmodelled[0] and kinds <= {"permutation"} and len(seen) != total:
-        fails.append(("shuffle-config", {"sizes": sizes}, "shuffle-not-uniform", "split_data(sizes=%s): the %d shuffle answers give only %d distinct assignments" % (sizes, total, len(seen))))
+    if unrecognised[0]:
+        acc.extra["shuffle_configs_structure_not_recognised"] += 1
+        acc.undecided += 1
+    elif mode == "complete" and not fails and not unmodelled[0] and kinds <= {"permutation"}:
+        want = 1
+        for folds in (next(iter(seen)) if seen else ()):      # fold sizes are fixed by (n, ratios) and were judged per execution
+            m = math.factorial(sum(len(f) for f in folds))
+            for f in folds:
+                m //= math.factorial(len(f))
+            want *= m
+        if seen and len(seen) != want:
+            fails.append(("shuffle-config", {"sizes": sizes}, "shuffle-not-uniform", "split_data(sizes=%s): the %d shuffle answers give only %d of the %d possible assignments of rows to folds" % (
+                sizes, total, len(seen), want)))
     return fails
 
 
@@ -327,7 +358,7 @@ def run_unit(unit):
             acc.fail("seeds", {}, sig, msg)
         for sig, msg in check_seed_range():
             acc.fail("seed-range", {}, sig, msg)
-        acc.extra["seed_range_executions"] += 2000
+        acc.extra["seed_range_executions"] += 3000
         acc.states += 1
         acc.transitions += 5
     else:
@@ -359,8 +390,10 @@ def describe(tier, seed):
                 "thirds, sixths, sevenths, ninths, [1], vectors with zero parts - all summing to 1 exactly whatever their float sum; seeds {default, 0, 1, VERIF_SEED}; "
                 "oracle: per environment the multiset of rows over the folds equals the input, fold i<last has round(n*r_i) rows (either rounding at exact ties, only when the "
                 "sizes fit in n), inputs untouched, same call twice identical; 32 erroneous vectors (off by 2e-6 .. 0.5) must raise ValueError; under the owned RNG all "
-                "n! shuffle answers for n<=%d (and pairs of environments), deviation<=2 beyond: folds are the answered order cut consecutively and distinct answers give "
-                "distinct assignments. non-trivial: some n*ratio is not an integer" % (4 if tier == "quick" else 5),
+                "n! shuffle answers for n<=%d (and pairs of environments), deviation<=2 beyond: every execution a valid partition and - when the shuffle is one permutation "
+                "block per environment used as a gather or a scatter - the answers reach every possible assignment of rows to folds (as sets: which observations land "
+                "in which fold, not the order inside a fold); real numpy, random_state 0..999 on 3, 4 and 5 rows: every possible assignment occurs. "
+                "non-trivial: some n*ratio is not an integer" % (4 if tier == "quick" else 5),
         "exhaustive": True,
         "bounds": {"sizes": list(SIZES_T if tier == "thorough" else SIZES), "shuffle_complete_n": 4 if tier == "quick" else 5},
         "assumptions": ["numpy's shuffle is uniform over permutations (the facade enumerates them all)", "ratio vectors with negative entries are outside the quantifier"],
